@@ -128,7 +128,7 @@ theorem cSet_trail {g : Adj} (hs : Sym g) {p1 : Pid1} {p2 : Pid2} {d : Dist} (ho
   unfold cSet at hr
   simp only [List.mem_flatMap] at hr
   obtain ⟨e, he, hr⟩ := hr
-  have he' : e ∈ cSetEntries p1 p2 d := (List.mergeSort_perm _ _).mem_iff.1 he
+  have he' : e ∈ cSetEntries p1 p2 d := (isort_perm _ _).mem_iff.1 he
   obtain ⟨irow, hi, jin, hj, e1, e2⟩ := cSetEntries_from he'
   have hcell : ∀ c ∈ e.2.1, PathFromTo g irow.1 jin.1 c := by
     intro c hc
@@ -163,7 +163,7 @@ theorem two_filter_of_zip_drop {α : Type} (p : α → Bool) : ∀ (l : List α)
   | x :: y :: tl, a, b, h, ha, hb => by
     simp only [List.drop_succ_cons, List.drop_zero, List.zip_cons_cons, List.mem_cons, Prod.mk.injEq] at h
     rcases h with ⟨rfl, rfl⟩ | h
-    · simp [List.filter_cons, ha, hb]
+    · simp [ha, hb]
     · have ih := two_filter_of_zip_drop p (y :: tl) a b (by simpa using h) ha hb
       rw [List.filter_cons]
       split
@@ -181,7 +181,7 @@ theorem cSet_cycle {g : Adj} (hs : Sym g) {p1 : Pid1} {p2 : Pid2} {d : Dist} (ho
   unfold cSet at hr
   simp only [List.mem_flatMap] at hr
   obtain ⟨e, he, hr⟩ := hr
-  have he' : e ∈ cSetEntries p1 p2 d := (List.mergeSort_perm _ _).mem_iff.1 he
+  have he' : e ∈ cSetEntries p1 p2 d := (isort_perm _ _).mem_iff.1 he
   obtain ⟨irow, hi, jin, hj, e1, e2⟩ := cSetEntries_from he'
   have hcell : ∀ c ∈ e.2.1, PathFromTo g irow.1 jin.1 c := by
     intro c hc
